@@ -6,7 +6,7 @@ import re
 import shutil
 import tempfile
 
-TITLES = ['a', 'b', 'a b', 'index', 'conf', 'figures', '', '.', 'a/b']
+TITLES = ['a', 'b', 'a b', 'index', 'conf', 'figures', '', '.', 'a/b', 'v1.2 x']
 
 
 def _results(k):
@@ -47,7 +47,7 @@ def _count_results(shape):
 
 
 def shapes(tier):
-    ts = TITLES if tier != 'quick' else ['a', 'b', 'index', 'conf', '', '.', 'a/b']
+    ts = TITLES if tier != 'quick' else ['a', 'b', 'index', 'conf', '', '.', 'a/b', 'v1.2 x']
     out = []
     # depth 1: root with one or two children
     for t1 in ts:
@@ -209,7 +209,7 @@ def sweep(tier, seed, known=()):
         if probs:
             fails.append({'input': {'report': _show(shape)}, 'observed': probs[:3], 'expected': 'C20 oracle'})
     return {'name': 'written-report-native', 'evaluations': n, 'distinct': n, 'failures': fails, 'exhaustive': True,
-            'bound': f'report trees of depth <= 3 over titles {TITLES if tier != "quick" else "a, b, index, conf, empty, ., a/b"} (one and two children, nested, repeated, '
+            'bound': f'report trees of depth <= 3 over titles {TITLES if tier != "quick" else "a, b, index, conf, empty, ., a/b, v1.2 x"} (one and two children, nested, repeated, '
                      'empty sections), one result per marked section; files inspected after FormattedRst.write; one report with plots written sequentially and with 2 worker processes',
             'samples': [_show(('Root', 0, [('a', 1, []), ('index', 1, [])]))]}
 
